@@ -105,6 +105,29 @@ class Node(object):
         del Node.store[id]
 
     @classmethod
+    def delete_node(cls, node: "Node", children: bool = True):
+        """
+        Removes the node from the store and, if children is True, all of its
+        descendants, whether or not the node itself is still registered.
+        For callers that hold the subtree they discard: delete_node_instance
+        has to find the node through the store first.
+
+        Args:
+            node: Node
+            children: bool
+
+        Returns:
+            None
+        """
+        if children:
+            descendants = list(node.children)
+            while descendants:
+                descendant = descendants.pop()
+                Node.store.pop(descendant.id, None)
+                descendants.extend(descendant.children)
+        Node.store.pop(node.id, None)
+
+    @classmethod
     def fix_nsmap(cls, node: "Node", nsmap: dict = None, nsmap_id: int = None) -> None:
         """
         Fixes the namespace mappings for the node and its children
@@ -587,7 +610,7 @@ class Node(object):
         new_child.parent = self
         self._children[self._children.index(old_child)] = new_child
         if delete_old:
-            Node.delete_node_instance(id=old_child.id)
+            Node.delete_node(old_child)
 
     def shift(self, child, direction: Shift, sib: bool = True):
         """
